@@ -2631,6 +2631,94 @@ func ruleLoadPollsCtx(c *Ctx, r *Report) {
 					r.bad(rule, key+"/before-first-read", c.at(in), "the context is observed before the first clause of a text is asked for", "the parser is asked for a clause on a path that has not looked at the context: an empty text returns nil under a cancelled context")
 				}
 			}
+			// (after seed C13g) ... and what it sees has consequences: the edge taken when the context is done does not
+			// lead back to the next clause. (`break` inside a select leaves the select, not the loop.)
+			if polled {
+				type edge struct {
+					from *ssa.BasicBlock
+					succ int
+				}
+				var cancelled []edge
+				isCtxCall := func(v ssa.Value, method string) bool {
+					for _, l := range c.originSet(v) {
+						if e, ok := l.(*ssa.Extract); ok {
+							l = e.Tuple
+						}
+						ci, ok := l.(*ssa.Call)
+						if ok && ci.Call.IsInvoke() && ci.Call.Method.Name() == method && isNamedIn(ci.Call.Value.Type(), "context", "Context") {
+							return true
+						}
+					}
+					return false
+				}
+				for _, b := range fn.Blocks {
+					cond := ifCond(b)
+					if cond == nil || len(b.Succs) != 2 {
+						continue
+					}
+					inCycle := b == call.Block() || (reachableFromSucc(b, call.Block()) && reachableFromSucc(call.Block(), b))
+					if !inCycle {
+						continue
+					}
+					if x, op, ok := nilCmp(cond); ok && isCtxCall(x, "Err") {
+						if op == token.NEQ {
+							cancelled = append(cancelled, edge{b, 0})
+						} else {
+							cancelled = append(cancelled, edge{b, 1})
+						}
+						continue
+					}
+					if x, op, k, ok := cmpConst(cond); ok && (op == token.EQL || op == token.NEQ) {
+						if e, isE := x.(*ssa.Extract); isE && e.Index == 0 {
+							if sel, isSel := e.Tuple.(*ssa.Select); isSel && !sel.Blocking && int(k) < len(sel.States) && k >= 0 && isCtxCall(sel.States[k].Chan, "Done") {
+								if op == token.EQL {
+									cancelled = append(cancelled, edge{b, 0})
+								} else {
+									cancelled = append(cancelled, edge{b, 1})
+								}
+							}
+						}
+					}
+				}
+				kk := key + "/cancelled-leaves-loop"
+				d2 := "once the context is seen done, no further clause is read"
+				switch {
+				case len(cancelled) == 0:
+					// does anything in the loop branch on what the context said?
+					decides := false
+					for _, b := range fn.Blocks {
+						cond := ifCond(b)
+						if cond == nil || !(b == call.Block() || (reachableFromSucc(b, call.Block()) && reachableFromSucc(call.Block(), b))) {
+							continue
+						}
+						dataSlice(cond, func(v ssa.Value) bool {
+							if ci, ok := v.(*ssa.Call); ok && ci.Call.IsInvoke() && (ci.Call.Method.Name() == "Err" || ci.Call.Method.Name() == "Done") && isNamedIn(ci.Call.Value.Type(), "context", "Context") {
+								decides = true
+							}
+							return !decides
+						})
+					}
+					if decides {
+						r.ok(rule, kk, c.at(in), d2, "the branch on the context's state was not recognised: not decided", false)
+					} else {
+						r.bad(rule, kk, c.at(in), d2, "the context is looked at inside the loop but no branch of the loop depends on what it said (a `break` inside a select leaves the select, not the loop): the rest of the text is read after the cancellation")
+					}
+				default:
+					var back *edge
+					for i, e := range cancelled {
+						t := e.from.Succs[e.succ]
+						if t == call.Block() || reachableFromAvoiding2(t, call.Block()) {
+							back = &cancelled[i]
+						}
+					}
+					if back == nil {
+						r.ok(rule, kk, c.at(in), d2, fmt.Sprintf("%d cancelled edge(s) in the loop, none leads back to the read", len(cancelled)), true)
+					} else {
+						last := back.from.Instrs[len(back.from.Instrs)-1]
+						r.bad(rule, kk, c.at(last), d2, "from the branch taken when the context is done the loop still reaches the next Parser.Term call: the rest of the text is read (and its errors reported) after the cancellation")
+					}
+				}
+			}
 			if polled {
 				r.ok(rule, key, c.at(in), desc, "ctx.Err()/Done() is called inside the loop", true)
 			} else {
@@ -2814,4 +2902,158 @@ func ruleLoopCapture(c *Ctx, r *Report) {
 	if nbad == 0 {
 		r.ok(rule, "scan/closures-in-loops", "-", desc, fmt.Sprintf("%d closures created inside loops examined", nmk), true)
 	}
+}
+
+// ---------------------------------------------------------------------------
+// R-PRED-ARGS-USED (C01; added after seed C01g): "a goal's answers are those of resolution" presupposes that
+// the goal that runs is the goal that was written: a built-in predicate that never looks at one of its
+// arguments computes a relation that cannot depend on it (call/8 that passes its 6th extra argument twice
+// answers for a different goal, with the right arity and no error). For every Go function registered as a
+// predicate, each Term parameter is referenced at least once, or is declared blank (`_`): the author's explicit
+// statement that the argument is ignored.
+func rulePredArgsUsed(c *Ctx, r *Report) {
+	const rule = "R-PRED-ARGS-USED"
+	desc := "a built-in predicate looks at every argument it is called with (or declares it ignored with _)"
+	seen := map[*ssa.Function]bool{}
+	nparams := 0
+	for _, e := range c.registered() {
+		fn := e.Fn
+		if fn == nil || seen[fn] || len(fn.Blocks) == 0 {
+			continue
+		}
+		seen[fn] = true
+		for i, p := range fn.Params {
+			if !isEngNamed(p.Type(), "Term") {
+				continue
+			}
+			nparams++
+			key := fmt.Sprintf("%s/param#%d", fname(fn), i)
+			switch {
+			case p.Name() == "_":
+				r.ok(rule, key, c.Pos(p.Pos()), desc, "declared blank: ignored on purpose", false)
+			case len(*p.Referrers()) > 0:
+				r.ok(rule, key, c.Pos(p.Pos()), desc, fmt.Sprintf("%d uses", len(*p.Referrers())), true)
+			default:
+				r.bad(rule, key, c.Pos(p.Pos()), desc, "parameter "+p.Name()+" of "+e.Name+"/"+fmt.Sprint(e.Arity)+" is named but never used: the predicate's answers cannot depend on that argument (another argument was probably passed in its place)")
+			}
+		}
+	}
+	r.analysed(rule, fmt.Sprintf("%d registered predicate functions, %d Term parameters", len(seen), nparams))
+}
+
+// reachableFromAvoiding2: target reachable from start (start itself counts when equal).
+func reachableFromAvoiding2(start, target *ssa.BasicBlock) bool {
+	seen := map[*ssa.BasicBlock]bool{}
+	var walk func(b *ssa.BasicBlock) bool
+	walk = func(b *ssa.BasicBlock) bool {
+		if b == target {
+			return true
+		}
+		if seen[b] {
+			return false
+		}
+		seen[b] = true
+		for _, s := range b.Succs {
+			if walk(s) {
+				return true
+			}
+		}
+		return false
+	}
+	return walk(start)
+}
+
+// ---------------------------------------------------------------------------
+// R-FRAME-STAYS (C03, C04; added after seed C03g): "a cut discards precisely the alternatives created since the
+// clause's predicate was called and nothing older". The frame of a promise whose child is about to run is the
+// barrier of everything the child creates: a later cut of the same clause body pops down to the frame of the
+// previous cut, catch/3 recovers at the frame that carries the handler, repeat re-enters through its frame. In the
+// trampoline every promise that is asked for a child is put back on the stack BELOW that child: the value the
+// child was taken from is appended to the stack before (or together with, at a lower index than) the child.
+// Without the frame popUntil finds no barrier and empties the whole stack - every older choice point and handler.
+func ruleFrameStays(c *Ctx, r *Report) {
+	const rule = "R-FRAME-STAYS"
+	desc := "the trampoline keeps the frame of a promise on the stack below the child it runs"
+	tr := c.trampoline()
+	if tr == nil {
+		r.undecided(rule, "anchor:trampoline", "-", desc, "not found")
+		return
+	}
+	// the child-taking calls: static calls in the trampoline of a method on *Promise that returns *Promise
+	type litStore struct {
+		arr ssa.Value
+		idx int64
+		st  *ssa.Store
+	}
+	var lits []litStore
+	eachInstr(tr, func(in ssa.Instruction) {
+		st, ok := in.(*ssa.Store)
+		if !ok {
+			return
+		}
+		ia, ok := st.Addr.(*ssa.IndexAddr)
+		if !ok {
+			return
+		}
+		if _, isAlloc := ia.X.(*ssa.Alloc); !isAlloc {
+			return
+		}
+		if k, ok := constInt(ia.Index); ok && c.isPromisePtr(st.Val.Type()) {
+			lits = append(lits, litStore{ia.X, k, st})
+		}
+	})
+	n := 0
+	eachInstr(tr, func(in ssa.Instruction) {
+		call, ok := in.(*ssa.Call)
+		if !ok {
+			return
+		}
+		callee := call.Call.StaticCallee()
+		if callee == nil || callee.Signature.Recv() == nil || !c.isPromisePtr(callee.Signature.Recv().Type()) || len(call.Call.Args) == 0 {
+			return
+		}
+		if callee.Signature.Results().Len() != 1 || !c.isPromisePtr(callee.Signature.Results().At(0).Type()) {
+			return
+		}
+		n++
+		key := fmt.Sprintf("%s/%s#%d", fname(tr), c.stableFuncName(callee), n)
+		recv := call.Call.Args[0]
+		var pushes []*litStore
+		for i, l := range lits {
+			if l.st.Val == ssa.Value(call) {
+				pushes = append(pushes, &lits[i])
+			}
+		}
+		if len(pushes) == 0 {
+			r.ok(rule, key, c.at(in), desc, "the child is not pushed with a slice literal: not decided", false)
+			return
+		}
+		kept := true
+		for _, childPush := range pushes { // every push of the child has the frame below it
+			one := false
+			for _, l := range lits {
+				if !(l.st.Val == recv || c.sameVar(l.st.Val, recv)) {
+					continue
+				}
+				switch {
+				case l.arr == childPush.arr && l.idx < childPush.idx:
+					one = true
+				case l.arr != childPush.arr && (l.st.Block() == childPush.st.Block() && instrIndex(l.st) < instrIndex(childPush.st) || l.st.Block() != childPush.st.Block() && l.st.Block().Dominates(childPush.st.Block())):
+					one = true
+				}
+			}
+			if !one {
+				kept = false
+			}
+		}
+		if kept {
+			r.ok(rule, key, c.at(in), desc, "the promise the child is taken from is appended below the child", true)
+		} else {
+			r.bad(rule, key, c.at(in), desc, "the child is pushed without the promise it was taken from: a later cut of the same body (whose barrier is this frame) pops the whole stack, and a handler or repeat carried by the frame is gone")
+		}
+	})
+	if n == 0 {
+		r.undecided(rule, fname(tr)+"/child", c.Pos(tr.Pos()), desc, "no call that takes a child promise found in the trampoline")
+	}
+	r.analysed(rule, fname(tr))
 }
